@@ -139,6 +139,8 @@ func checkC02(c *Ctx) {
 	// ---- (2b) a memoised hash never survives a structural change
 	c.rule("TYPESTATE-stale-hash", "fields that enter the hash pre-image are written only on freshly copied nodes", 15)
 	checkStaleHashV1(c)
+	c.rule("OWN-node-version", "a node's version (hashed into it) is fixed when the node is created or first keyed; re-keying keeps it", 1)
+	checkNodeVersionOwner(c)
 	// a Remove of an absent key must not replace the (persisted) root by an unsaved copy: the next commit would re-stamp it
 	checkRemoveAbsent(c)
 
@@ -355,5 +357,107 @@ func checkStaleHashV1(c *Ctx) {
 	}
 	if n == 0 {
 		c.anchorMissing("TYPESTATE-stale-hash", "no structural node stores found")
+	}
+}
+
+// checkNodeVersionOwner: the version a node is hashed with is the version in
+// its node key.  That key may be assigned (a) to a node created in the same
+// function, (b) to a node that has no key yet (guarded by `nodeKey == nil` /
+// early return on `nodeKey != nil`), or (c) as a re-keying that copies an
+// existing node's version.  Any other assignment gives a stored node a
+// version different from the one its hash (and its parents' hashes) were
+// computed with — e.g. an importer that files an inherited root under the
+// import version.
+func checkNodeVersionOwner(c *Ctx) {
+	l := c.L
+	const R = "OWN-node-version"
+	fNK := l.Field("", "Node", "nodeKey")
+	fVer := l.Field("", "NodeKey", "version")
+	nkT := l.NamedType("", "NodeKey")
+	if fNK == nil || fVer == nil || nkT == nil {
+		c.anchorMissing(R, "Node.nodeKey / NodeKey.version")
+		return
+	}
+	freshBase := func(v ssa.Value) bool {
+		v = stripTrivial(v)
+		if _, ok := v.(*ssa.Alloc); ok {
+			return true
+		}
+		if ld, ok := v.(*ssa.UnOp); ok && ld.Op == token.MUL {
+			if al, ok := ld.X.(*ssa.Alloc); ok {
+				if s := storedInto(al); s != nil {
+					_, isAl := stripTrivial(s).(*ssa.Alloc)
+					return isAl
+				}
+			}
+		}
+		return false
+	}
+	n := 0
+	for _, fn := range l.SrcFuncs {
+		if l.pkgPathOf(fn) != l.ModPath {
+			continue
+		}
+		allInstrs(fn, func(in ssa.Instruction) {
+			st, ok := in.(*ssa.Store)
+			if !ok {
+				return
+			}
+			fa, ok := st.Addr.(*ssa.FieldAddr)
+			if !ok {
+				return
+			}
+			fv := fieldVar(fa.X.Type(), fa.Field)
+			switch fv {
+			case fVer:
+				if freshBase(fa.X) {
+					return // part of a NodeKey literal; judged where the literal is attached to a node
+				}
+				n++
+				c.bad(R, l.fname(fn)+" writes NodeKey.version of an existing key", l.ipos(st), "the version of an existing node key is overwritten: the node's hash was computed with the old version")
+			case fNK:
+				if freshBase(fa.X) || isNilConst(st.Val) {
+					return
+				}
+				n++
+				key := l.fname(fn) + " assigns a node key to an existing node"
+				// (b) node had no key: the store is not reachable with nodeKey != nil
+				guarded := false
+				for _, b := range fn.Blocks {
+					iff := ifOf(b)
+					if iff == nil {
+						continue
+					}
+					v, nn, isNil := nilCond(iff.Cond)
+					if !isNil || !isLoadOfField(fNK)(stripTrivial(v)) {
+						continue
+					}
+					if edgeDominates(b, 1-nn, st.Block()) {
+						guarded = true
+					}
+				}
+				if guarded {
+					c.ok(R, key, l.ipos(st), "only on the `nodeKey == nil` edge (first keying)")
+					return
+				}
+				// (c) re-keying that copies an existing version
+				role := "?"
+				if al, ok := stripTrivial(st.Val).(*ssa.Alloc); ok {
+					for _, rr := range refs(al) {
+						if fa2, ok := rr.(*ssa.FieldAddr); ok && fieldVar(fa2.X.Type(), fa2.Field) == fVer {
+							for _, r3 := range refs(fa2) {
+								if s2, ok := r3.(*ssa.Store); ok {
+									role = roleOf(l, s2.Val, "", 0)
+								}
+							}
+						}
+					}
+				}
+				c.decide(R, key, l.ipos(st), strings.HasSuffix(role, "nodeKey.version"), "re-keyed with the node's own version", "an existing (possibly inherited) node is given a key with version `"+role+"`: it is stored and hashed under a version it was not created in, so the root hash differs from the source tree / the reference")
+			}
+		})
+	}
+	if n < 1 {
+		c.anchorMissing(R, "no node-key assignment to an existing node found (saveNewNodes)")
 	}
 }
